@@ -8,5 +8,5 @@ From PVBld Require Import Names Paths BoxCycle Pipeline.
 Extraction "model.ml"
   display ident_token_ok rust_name emitted collides
   related_path wrelated_path resolve_item
-  box_decisions is_nested
+  box_decisions is_nested union_cycle_b
   layout layout_pred generate_unique_name lower_message lower_message_pinned.
